@@ -77,6 +77,17 @@ func (e *Engine) externWrites(f *ssa.Function) *WriteSet {
 		e.ghostKeys()
 		w.Heap[gBrPos] = true
 		return w
+	case p == "bytes" && f.Signature.Recv() != nil && strings.Contains(f.Signature.Recv().Type().String(), "Reader"):
+		e.ghostKeys()
+		w.Heap[gBrPos] = true
+		return w
+	case p == "bytes" && f.Name() == "NewReader":
+		return w
+	case p == "encoding/binary" && f.Name() == "Read":
+		// consumes from the reader; the destination pointer is accounted for at the call site (address passed)
+		e.ghostKeys()
+		w.Heap[gBrPos] = true
+		return w
 	case p == "io" && f.Name() == "ReadFull":
 		e.ghostKeys()
 		w.Heap[gBrPos] = true
@@ -406,6 +417,23 @@ func (e *Engine) modularCall(s *State, fr *Frame, c *FuncContract, key string, s
 	} else {
 		w.setAll("calls.go:393")
 	}
+	// readers advanced by the callee: exactly the ones passed as arguments
+	for idx := range w.Readers {
+		done := false
+		if idx < len(args) {
+			if p, ok := args[idx].(*Ptr); ok && p.Kind == pkObj {
+				if !w.All && !w.Heap[gBrPos] {
+					e.havocReaderPos(s, p.Ref, "call."+sanitize(shortKey(key)))
+				}
+				done = true
+			}
+		}
+		if !done {
+			e.ghostKeys()
+			w.Heap[gBrPos] = true
+		}
+	}
+	w.Readers = map[int]bool{}
 	e.havocWrites(s, fr, w, "call."+sanitize(shortKey(key)))
 	rv := e.freshResults(s, sig, shortKey(key))
 	// bind results
